@@ -61,7 +61,10 @@ class PlanInterpreter:
                 src = SR.Rel([SR.Col(c.name, list(c.tags) + [(step.table_name.lower(),)]) for c in src.cols], src.rows)
             out = self.over(step.query, src, n)
             if step.table_name:
+                ranks = getattr(out, '_ranks', None)
                 out = SR.Rel([SR.Col(c.name, [(step.table_name.lower(),)]) for c in out.cols], out.rows)
+                if ranks is not None:
+                    out._ranks = ranks
             return out
         if isinstance(step, S.QueryStep):
             if step.from_table is None:
